@@ -258,6 +258,93 @@ def c14(ctx):
     return "model_checking"
 
 
+@check("C20")
+def c20(ctx):
+    ctx.rule = ("model: every operation sequence (create alternative, abandon, write slot, push/pop auxiliary stack, commit to any earlier count) up to the bound over "
+                "the stated slots/values; the concrete undo log transcribed from vm.rs refines the whole-state-copy model (TLC invariant Refines); binding: every "
+                "history TLC generated while exploring (one per reached state) plus long simulated histories are replayed into the REAL vm::State through the "
+                "hook wrapper and the observable state after EVERY operation is compared by TLC with the abstract model; non-trivial = histories containing a "
+                "pop or cut after a save")
+    if ctx.quick:
+        consts = "NSlots = 2  Vals = {0, 1}  MaxDepth = 3  MaxX = 2"
+        maxops, nslots = 5, 2
+    else:
+        consts = "NSlots = 3  Vals = {0, 1, 2}  MaxDepth = 3  MaxX = 2"
+        maxops, nslots = 6, 3
+    cfg = ("SPECIFICATION Spec\nCONSTANTS %s  MaxOps = %d\nINVARIANT Refines\nINVARIANT LogWellFormed\nINVARIANT PopAgrees\nINVARIANT TopAgrees\n"
+           "INVARIANT Emit\nCONSTRAINT Bound\nVIEW view\nCHECK_DEADLOCK FALSE\n" % (consts, maxops))
+    r = tlc.run_mc(ctx, "MC_SaveLog", cfg, must_cover=("Push", "Pop", "SPop"), env=dict(VH_EMIT="1"), workers=8, xmx="16g", timeout=7200)
+    mc_violation(ctx, r, "MC_SaveLog(%s, MaxOps=%d)" % (consts, maxops))
+    hists = [h["h"] for h in r.tagged("REPLAY")]
+    ctx.cov["mc_savelog"] = dict(constants=consts, max_ops=maxops, distinct_states=r.distinct, generated=r.generated, histories_emitted=len(hists))
+    # deeper model checking without emission (the refinement itself, one more operation)
+    r2 = tlc.run_mc(ctx, "MC_SaveLog", cfg.replace("MaxOps = %d" % maxops, "MaxOps = %d" % (maxops + (2 if ctx.quick else 1))), name="MC_SaveLog_deep",
+                    env=dict(VH_EMIT="0"), workers=16, xmx="24g", timeout=7200)
+    mc_violation(ctx, r2, "MC_SaveLog_deep")
+    ctx.cov["mc_savelog_deep"] = dict(max_ops=maxops + (2 if ctx.quick else 1), distinct_states=r2.distinct, generated=r2.generated)
+    # long random histories from TLC's simulator
+    sim = tlc.run_tlc("MC_SaveLog", cfg=_write_cfg("MC_SaveLog_sim", cfg.replace("MaxOps = %d" % maxops, "MaxOps = 40").replace("VIEW view\n", "")),
+                      env=dict(VH_EMIT="1"), workers=1, simulate="num=%d" % (300 if ctx.quick else 5000), extra=("-depth", "40", "-seed", str(ctx.seed + 1)),
+                      tag="MC_SaveLog_sim", deque=False, timeout=3600)
+    lines = [h["h"] for h in sim.tagged("REPLAY")]
+    longh = [h for i, h in enumerate(lines) if i + 1 == len(lines) or len(lines[i + 1]) <= len(h)]
+    if sim.violated:
+        mc_violation(ctx, sim, "MC_SaveLog simulation")
+    if not longh:
+        raise ToolError("simulation produced no histories:\n" + "\n".join(sim.out.splitlines()[-15:]))
+    if len(hists) > 400000:
+        hists = sample(ctx, hists, 400000)
+    d = common.workdir("C20")
+    tcfg = _write_cfg("TraceSaveLog", "SPECIFICATION TSpec\nCONSTANTS %s\nCHECK_DEADLOCK FALSE\nPOSTCONDITION Consumed\n" % consts)
+    for name, hs in (("state_graph", hists), ("simulated", longh)):
+        hf = os.path.join(d, name + ".hists.ndjson")
+        common.write_ndjson(hf, [{"h": h} for h in hs])
+        prefix = os.path.join(d, name + ".sl")
+        common.clean_prefix(prefix)
+        shards = 16 if len(hs) > 2000 else 2
+        common.vh(["savelog", "--hists", hf, "--nslots", nslots, "--out", prefix, "--shards", shards])
+        rs = tlc.run_shards("TraceSaveLog", [dict(VH_RECS="%s.%d.ndjson" % (prefix, i)) for i in range(shards)], cfg=tcfg)
+        tlc.require_clean(rs, "TraceSaveLog(%s)" % name)
+        ctx.add_tlc(rs)
+        st = {}
+        for x in rs:
+            for k, v in x.tagged("STATS")[0].items():
+                st[k] = st.get(k, 0) + v
+            for j in x.tagged("REJECT"):
+                ctx.violation("history %s: the real State differs from the whole-copy model at operation %s (observed %s)" % (j["h"], j["first_bad_op"], j["observed"]),
+                              dict(kind="savelog", h=j["h"], nslots=nslots, consts=consts, got=j))
+        if st["records"] != len(hs):
+            raise ToolError("TraceSaveLog(%s): %d of %d histories validated" % (name, st["records"], len(hs)))
+        ctx.cov.setdefault("replay", {})[name] = st
+        ctx.traces += st["ok"]
+        ctx.evaluations += st["operations"]
+    nt = 0
+    for h in hists + longh:
+        seen_save = False
+        for op in h:
+            if op[0] == "save":
+                seen_save = True
+            elif op[0] in ("pop", "cut") and seen_save:
+                nt += 1
+                break
+    ctx.nontrivial = nt
+    ctx.samples += [dict(history=h) for h in (hists[len(hists) // 2], longh[0])]
+    ctx.exhaustive = True
+    ctx.cov["exhaustive_note"] = "all operation sequences up to MaxOps over the stated slots/values are model-checked; all of them up to the emission bound are replayed"
+    ctx.assumptions = ["SaveLogOps.tla's concrete half is a line-by-line transcription of vm.rs::State; the replay compares the REAL State, not the transcription",
+                       "pc/ix payloads are distinct per push so that a wrong branch would be visible"]
+    return "model_checking"
+
+
+def _write_cfg(name, text):
+    d = os.path.join(common.WORK, "cfg")
+    os.makedirs(d, exist_ok=True)
+    p = os.path.join(d, name + ".cfg")
+    with open(p, "w") as f:
+        f.write(text)
+    return p
+
+
 @check("C15")
 def c15(ctx):
     excl = "".join(common.excl_classes("C15"))
@@ -579,6 +666,22 @@ def replay(ctx, path):
         common.vh(["expand", "--templates", tf, "--fixtures", common.export("expand_fixtures", "fixtures", 0), "--out", prefix, "--shards", 1])
         rs = tlc.run_shards("TraceExpand", [dict(VH_RECS=prefix + ".0.ndjson")])
         tlc.require_clean(rs, "TraceExpand(replay)")
+        rej = rs[0].tagged("REJECT")
+        print(json.dumps(rej, indent=1))
+        if rej:
+            print("VIOLATION property=%s replay=%s" % (ctx.prop, path))
+            return 1
+        return 0
+    if d.get("kind") == "savelog":
+        dd = common.workdir(ctx.prop)
+        hf = os.path.join(dd, "replay.hists.ndjson")
+        common.write_ndjson(hf, [{"h": d["h"]}])
+        prefix = os.path.join(dd, "replay.sl")
+        common.clean_prefix(prefix)
+        common.vh(["savelog", "--hists", hf, "--nslots", d["nslots"], "--out", prefix, "--shards", 1])
+        tcfg = _write_cfg("TraceSaveLog_replay", "SPECIFICATION TSpec\nCONSTANTS %s\nCHECK_DEADLOCK FALSE\nPOSTCONDITION Consumed\n" % d["consts"])
+        rs = tlc.run_shards("TraceSaveLog", [dict(VH_RECS=prefix + ".0.ndjson")], cfg=tcfg)
+        tlc.require_clean(rs, "TraceSaveLog(replay)")
         rej = rs[0].tagged("REJECT")
         print(json.dumps(rej, indent=1))
         if rej:
